@@ -849,7 +849,7 @@ INFO = {'C19': {
         'been delivered (a controller without world cannot be used)']}}
 for _v in INFO.values():
     _v['rule'] += (
-        '; swarm dimensions (see probes): World subclasses overriding queries, processors that live in another world, instance priorities, prototype sources incl. static/class/partial/instance-level init methods, prefixes assigned late or on the instance, types named like attributes or sharing a __name__, an OnUpdateProcessor that spends a frame in another world, a world reached through its controller only, listed types renamed between two uses of a prototype, init_methods mappings with __missing__')
+        '; swarm dimensions (see probes): World subclasses overriding queries, processors that live in another world, instance priorities, prototype sources incl. static/class/partial/instance-level init methods, prefixes assigned late or on the instance, types named like attributes or sharing a __name__, an OnUpdateProcessor that spends a frame in another world, a world reached through its controller only, listed types renamed between two uses of a prototype, init_methods mappings with __missing__, the prefix changed between two components of one iteration')
 PROBES = {'C19': ['form.function', 'form.method', 'form.descriptor_get',
                   'form.descriptor_set', 'form.descriptor_del',
                   'form.processor_ref', 'form.factory',
